@@ -47,6 +47,10 @@ def handle (req : Sexp) : Sexp :=
     match stmts? ss, Expr.ofSexp? e with
     | some ss, some e => .list ((reassign ss x e).map Stmt.toSexp)
     | _, _ => bad
+  | .list [.atom "subs", ss, .atom x, t] =>
+    match stmts? ss, Expr.ofSexp? t with
+    | some ss, some t => .list ((substStmts x t ss).map Stmt.toSexp)
+    | _, _ => bad
   | .list [.atom "rmdefs", ss, syms, i] =>
     match stmts? ss, symList? syms, i.asNat? with
     | some ss, some syms, some i =>
